@@ -84,6 +84,12 @@ static int run(int argc, char **a) {
     free(b.p);
   } else if (!strcmp(c, "crc") && argc == 2) {
     vbytes b = parse_bytes(a[1]); printf("%lx", (unsigned long)ldb_crc32c_value(b.p, b.n)); free(b.p);
+  } else if (!strcmp(c, "crc_al") && argc == 3) {
+    /* same CRC, data placed at a chosen alignment (exercises the word-at-a-time paths) */
+    vbytes b = parse_bytes(a[2]); size_t al = (size_t)parse_num(a[1]) & 63;
+    uint8_t *raw = malloc(b.n + 128); uint8_t *p = raw + (64 - ((uintptr_t)raw & 63)) + al;
+    memcpy(p, b.p, b.n);
+    printf("%lx", (unsigned long)ldb_crc32c_value(p, b.n)); free(raw); free(b.p);
   } else if (!strcmp(c, "crc_extend") && argc == 3) {
     vbytes b = parse_bytes(a[2]);
     printf("%lx", (unsigned long)ldb_crc32c_extend((uint32_t)parse_num(a[1]), b.p, b.n)); free(b.p);
